@@ -1,6 +1,8 @@
 // Common helpers for the /verif conformance harnesses (header only).
 #ifndef VERIF_VH_H
 #define VERIF_VH_H
+#include <cfenv>
+#include <clocale>
 #include <cmath>
 #include <cstdint>
 #include <cstdio>
@@ -9,7 +11,13 @@
 #include <iostream>
 #include <sstream>
 #include <string>
+#include <locale>
 #include <vector>
+
+#include <sys/stat.h>
+#include <unistd.h>
+
+#include <gsl/gsl_errno.h>
 
 #include <bxdecay0/event.h>
 #include <bxdecay0/i_random.h>
@@ -87,6 +95,46 @@ namespace vh {
     }
     return o.str();
   }
+
+  /// Process-wide registers a library call has to leave as it found them (it may change and restore them inside the call):
+  /// what else could carry history from one call to the next, or from one instance to another.
+  struct ambient
+  {
+    int rounding = 0, fpexcept = 0;
+    std::string clocale, cxxlocale, cwd;
+    unsigned umask_ = 0;
+    void * gsl_handler = nullptr;
+    static ambient capture()
+    {
+      ambient a;
+      a.rounding  = std::fegetround();
+      a.fpexcept  = fegetexcept();
+      const char * l = std::setlocale(LC_ALL, nullptr);
+      a.clocale   = l ? l : "";
+      a.cxxlocale = std::locale().name() + (std::use_facet<std::numpunct<char>>(std::locale()).decimal_point() == '.' ? "/." : "/,");
+      char buf[4096];
+      a.cwd    = getcwd(buf, sizeof buf) ? buf : "";
+      mode_t m = ::umask(0);
+      ::umask(m);
+      a.umask_ = (unsigned)m;
+      gsl_error_handler_t * h = gsl_set_error_handler(nullptr);   // peek: returns the handler in place ...
+      gsl_set_error_handler(h);                                   // ... and put it back
+      a.gsl_handler = (void *)h;
+      return a;
+    }
+    /// name of the first register that differs, "" if none
+    std::string diff(const ambient & o) const
+    {
+      if (rounding != o.rounding) return "fp-rounding-mode";
+      if (fpexcept != o.fpexcept) return "fp-exception-mask";
+      if (clocale != o.clocale) return "C-locale";
+      if (cxxlocale != o.cxxlocale) return "global-C++-locale";
+      if (cwd != o.cwd) return "working-directory";
+      if (umask_ != o.umask_) return "umask";
+      if (gsl_handler != o.gsl_handler) return "gsl-error-handler";
+      return "";
+    }
+  };
 
   inline std::string json_escape(const std::string & s)
   {
